@@ -20,6 +20,12 @@ MAP.update({
  "C10c": ["C10"], "C10d": ["C10"], "C13c": ["C13"], "C13d": ["C13"], "C15c": ["C15"], "C15d": ["C15"],
  "C16c": ["C16", "C13"], "C16d": ["C16", "C10"], "C18c": ["C18", "C03"], "C18d": ["C18"],
 })
+MAP.update({
+ "C02e": ["C02"], "C02f": ["C02"], "C04e": ["C04", "C13"], "C04f": ["C04", "C13"], "C06e": ["C06"], "C06f": ["C06"],
+ "C07e": ["C07"], "C07f": ["C07"], "C08e": ["C08"], "C08f": ["C08"], "C09e": ["C09"], "C09f": ["C09"],
+ "C11e": ["C11"], "C11f": ["C11"], "C12e": ["C12"], "C12f": ["C12", "C06"], "C14e": ["C14"], "C14f": ["C14"],
+ "C17e": ["C17"], "C17f": ["C17"], "C19e": ["C19"], "C19f": ["C19"], "C20e": ["C20"], "C20f": ["C20"],
+})
 only = sys.argv[1:]
 
 
@@ -27,7 +33,7 @@ def run(sid):
     pid, x = sid[:3], sid[3]
     patch = os.path.join(V, "seeded", sid, "patch.diff")
     if not os.path.exists(patch):
-        patch = "/tmp/seed/%s.out/%s/patch.diff" % (pid, x) if x in "ab" else "/tmp/seed2/%s.out/%s/patch.diff" % (pid, {"c": "a", "d": "b"}[x])
+        patch = "/tmp/seed/%s.out/%s/patch.diff" % (pid, x) if x in "ab" else ("/tmp/seed2/%s.out/%s/patch.diff" % (pid, {"c": "a", "d": "b"}[x]) if x in "cd" else "/tmp/seed3/%s.out/%s/patch.diff" % (pid, {"e": "a", "f": "b"}[x]))
     wt = "/tmp/mx/%s" % sid
     out = "/tmp/mx/out-%s" % sid
     subprocess.run(["git", "-C", "/repo", "worktree", "remove", "--force", wt], capture_output=True)
@@ -57,7 +63,7 @@ os.makedirs("/tmp/mx", exist_ok=True)
 sids = [s for s in MAP if not only or s in only]
 fn = os.path.join(V, "seeded", "detection.json")
 det = json.load(open(fn)) if os.path.exists(fn) else {}
-with ThreadPoolExecutor(5) as ex:
+with ThreadPoolExecutor(4) as ex:
     for sid, res in ex.map(run, sids):
         det[sid] = res
         print(sid, {k: (v.get("exit"), len(v.get("violations", []))) if isinstance(v, dict) and "exit" in v else v for k, v in res.items()}, flush=True)
